@@ -81,7 +81,7 @@ func C09(r *drv.Run) {
 	if !quick(r) {
 		nprog, ntext = 250000, 12
 	}
-	r.Rule = "accepted programs from every generator (core, regex, named loops, whole-*, amount clauses, replace), the hand corpus and repository examples, one-token mutants of those that still compile (empty bodies, exactly 0, odd-but-legal shapes) and terminating transforms/predicates doing arithmetic on the match text; inputs: empty, program-derived matches and every kind of prefix/edit (input ends inside every construct), bytes >= 0x80, \\r\\n, fixed hostile texts; plus RunFiles on empty and tiny files; plus linear-time find/replace programs (literals, classes, amount clauses, a transform building a 5 000-byte replacement) over inputs of 4 097 .. 140 000 bytes with no, one or several far-apart matches, through Run and through RunFiles in every mode. Monitor: panic / fatal error / CPU or heap guard in Run or RunFiles. Non-trivial = the run executed >= 1 VM instruction on a non-empty input or ran on the empty input; distinct by (program, input)."
+	r.Rule = "accepted programs from every generator (core, regex, named loops, whole-*, amount clauses, replace), the hand corpus and repository examples, one-token mutants of those that still compile (empty bodies, exactly 0, odd-but-legal shapes) and terminating transforms/predicates doing arithmetic on the match text; inputs: empty, program-derived matches and every kind of prefix/edit (input ends inside every construct), bytes >= 0x80, \\r\\n, fixed hostile texts; plus RunFiles on empty and tiny files; plus linear-time find/replace programs (literals, classes, amount clauses, a transform building a 5 000-byte replacement) over inputs of 4 097 .. 140 000 bytes with no, one or several far-apart matches, through Run and through RunFiles in every mode; plus RunFiles on directory arguments (it searches the files inside) with legal but unusual names - ending in a backslash, with blanks, named like a file, given with and without a trailing slash, empty, holding a sub-directory. Monitor: panic / fatal error / CPU or heap guard in Run or RunFiles. Non-trivial = the run executed >= 1 VM instruction on a non-empty input or ran on the empty input; distinct by (program, input)."
 	r.Assumptions = []string{
 		"scope as stated: process code terminates (generated loops carry an incrementing counter), subroutines consume before recursing",
 		"a case exceeding the VM step budget is skipped (termination is C10's claim); a CPU/heap guard trip outside the VM is a violation",
@@ -151,6 +151,7 @@ func C09(r *drv.Run) {
 		"set f to transform if match == 'x' then set n to 1 end return n - '1' end\nreplace all 'a' with f")
 	total := nprog + len(mutants)
 	c09Long(r, filesDir)
+	c09Dirs(r, filesDir)
 	r.Exec(total, drv.ExecOpts{Batch: 200}, func(i int) *drv.Item {
 		rng := gen.Derive(r.Seed, "C09", i)
 		var src string
@@ -352,6 +353,50 @@ func c09Long(r *drv.Run, filesDir string) {
 				r.Count("long_input_runs", 1)
 				r.Nontrivial(fmt.Sprintf("long|%s|%s|%d", src, mode, ti))
 			}
+		}}
+	})
+}
+
+// c09Dirs: RunFiles expands a directory argument to the files inside it. Directory names are as free as file names.
+func c09Dirs(r *drv.Run, filesDir string) {
+	root := filepath.Join(filesDir, "dirs")
+	names := []string{"plain", "data\\", "with blank", "looks.txt", "caf\u00e9", "-dash", "a\\b"}
+	for _, n := range names {
+		d := filepath.Join(root, n)
+		os.MkdirAll(d, 0o755)
+		os.WriteFile(filepath.Join(d, "a.txt"), []byte("ab 12\n"), 0o644)
+		os.WriteFile(filepath.Join(d, "b b.txt"), []byte("a\n"), 0o644)
+	}
+	os.MkdirAll(filepath.Join(root, "empty"), 0o755)
+	os.MkdirAll(filepath.Join(root, "nested", "inner"), 0o755)
+	os.WriteFile(filepath.Join(root, "nested", "top.txt"), []byte("ab\n"), 0o644)
+	os.WriteFile(filepath.Join(root, "nested", "inner", "deep.txt"), []byte("ab\n"), 0o644)
+	var args [][]string
+	for _, n := range names {
+		args = append(args, []string{root + "/" + n}, []string{root + "/" + n + "/"}, []string{root + "/" + n, root + "/plain/a.txt"})
+	}
+	args = append(args, []string{root + "/empty"}, []string{root + "/empty/", root + "/plain"}, []string{root + "/nested"}, []string{root + "/nested/"})
+	progs := []string{"find all 'a'", "replace all 'a' with 'b'", "find all letter\nfind all digit"}
+	r.Exec(len(args)*len(progs), drv.ExecOpts{Batch: 6}, func(i int) *drv.Item {
+		src := progs[i%len(progs)]
+		fl := args[i/len(progs)]
+		c := wire.Case{Op: "runfiles", Src: []byte(src), Files: fl, Mode: "NOTHING", StepBudget: 400000}
+		return &drv.Item{Case: c, Check: func(res *wire.Result) {
+			r.Eval(1)
+			if crashOrGuard(r, res, &c, src, false) {
+				return
+			}
+			if res.Compile == nil || !res.Compile.OK || len(res.Runs) < 1 {
+				r.Inconclusive("fixed program rejected: " + src)
+				return
+			}
+			run := &res.Runs[0]
+			if run.Panic != nil {
+				r.Violate(&drv.Violation{Sig: "runfiles-on-directory-panic:" + run.Panic.Frame, Panic: run.Panic.Msg, Frame: run.Panic.Frame, Src: src, Case: &c, Detail: map[string]any{"arguments": fmt.Sprint(fl)}})
+				return
+			}
+			r.Count("runfiles_directory_arguments", 1)
+			r.Nontrivial("dir|" + src + "|" + fmt.Sprint(fl))
 		}}
 	})
 }
